@@ -6,6 +6,7 @@ import (
 	"io/ioutil"
 	"os"
 	"os/exec"
+	"sync"
 	"time"
 
 	"github.com/gorilla/websocket"
@@ -77,15 +78,36 @@ func floodChild() {
 		}
 	}
 	time.Sleep(300 * time.Millisecond)
-	since := time.Now()
-	seen := latest().seq
-	for time.Since(since) < settle {
-		if f := latest(); f.seq != seen {
-			seen = f.seq
-			out.FramesAfter++
-		}
-		time.Sleep(50 * time.Millisecond)
+	// the harness's first reader may itself have been dropped as a slow reader by the burst (rightly so):
+	// what the stats topic delivers afterwards is observed on a fresh connection
+	reader2 := Ident{Topic: []byte("stats"), Scopes: [][]byte{[]byte("read")}, CanRead: true, ExpiresAt: expText(now + 3600), UserAgent: []byte("c14-stats-reader-2"), Addr: []byte{}}
+	rc2, err := w.connect(reader2, "r2")
+	if err != nil {
+		out.Note = "second reader: " + err.Error()
+		return
 	}
+	var fmu sync.Mutex
+	go func() {
+		for {
+			_, data, err := rc2.ReadMessage()
+			if err != nil {
+				return
+			}
+			if reports, derr := decodePublished(data); derr == nil {
+				for _, r := range reports {
+					if r.Topic == "stats" && r.UserAgent == "crossbar" {
+						fmu.Lock()
+						out.FramesAfter++
+						fmu.Unlock()
+						break
+					}
+				}
+			}
+		}
+	}()
+	time.Sleep(settle + reportInterval) // the queued commands are read first, then reporting resumes
+	fmu.Lock()
+	defer fmu.Unlock()
 	out.FeederAfter, out.StatusCode = feederListed()
 	wc.Close()
 }
